@@ -1000,8 +1000,10 @@ impl World {
             }
             "hs" => {
                 // responder.rs:430-482 with the REAL `ReservedSession` guard: reserve, `update` (CASE mode
-                // of the fabric + peer), the resumption record, `complete()`; the guard stays alive until
-                // the final status report is acknowledged (`hsdone`)
+                // of the fabric + peer), the resumption record. `complete()` is the other half (`hsdone`):
+                // since repo fix 287abf0 it makes the session live at once, so the only state in which a
+                // RESERVED session carries a fabric is the one between `update` and `complete()` - two
+                // separate calls of the public guard API (the responder makes them back to back)
                 let fab = num(1) as u8;
                 let node = num(2);
                 let rid = num(3);
@@ -1031,7 +1033,6 @@ impl World {
                             let p = state.verif_parts();
                             p.resumption.insert_or_update(ResumableSession::verif_new(fi, node, rid16(rid)));
                         });
-                        guard.complete();
                         self.pending.push((id, guard));
                         format!("s{}", id)
                     }
@@ -1043,7 +1044,10 @@ impl World {
                 match self.pending.iter().position(|(k, _)| *k == id) {
                     None => "nohs".into(),
                     Some(i) => {
-                        let (_, guard) = self.pending.remove(i);
+                        // `complete()`: the session, if it is still there, is live from here on; the drop of
+                        // a completed guard leaves it alone (and removes nothing when it is gone)
+                        let (_, mut guard) = self.pending.remove(i);
+                        guard.complete();
                         drop(guard);
                         "ok".into()
                     }
